@@ -154,8 +154,12 @@ pub fn ansi_preserving_slice(s: &str, start: usize) -> String {
                         // This section starts after `start`, so contributes all its bytes.
                         &s[a..b]
                     } else {
-                        // This section contributes those bytes that are >= start
-                        &s[(a + start - i)..b]
+                        // This section contributes those bytes that are >= start (if `start`
+                        // falls inside a multi-byte character, from the next character on).
+                        let from = ((a + start - i)..b)
+                            .find(|&k| s.is_char_boundary(k))
+                            .unwrap_or(b);
+                        &s[from..b]
                     }
                 }
             })
